@@ -52,10 +52,10 @@ def apply_patch(d, patch):
     return cp.returncode == 0, cp.stdout.decode()[-400:]
 
 
-def ingest(prop, k, src):
+def ingest(prop, k, src, as_k=None):
     src = Path(src)
     patch, demo, notes = src / f"patch{k}.diff", src / f"demo{k}.py", src / f"notes{k}.md"
-    sid = f"{prop}-{k}"
+    sid = f"{prop}-{as_k or k}"
     d = scratch(f"ingest-{sid}")
     shutil.copy(demo, d / "demo.py")
     rep = {"property": prop, "id": sid}
@@ -181,5 +181,5 @@ if __name__ == "__main__":
         table()
         sys.exit(0)
     if sys.argv[1] == "ingest":
-        sys.exit(0 if ingest(sys.argv[2], sys.argv[3], sys.argv[4]) else 1)
+        sys.exit(0 if ingest(sys.argv[2], sys.argv[3], sys.argv[4], sys.argv[5] if len(sys.argv) > 5 else None) else 1)
     run(sys.argv[2:])
